@@ -178,6 +178,30 @@ class LimitsOracle(Oracle):
                     self.fail(f"C02:above-max-after-add:{op['op']}", f"op {i} ({op['op']}): {L.name} well {wi} = {float(v)} > max {float(mx)}", i)
                 if v < before and v < mn:
                     self.fail(f"C02:below-min-after-remove:{op['op']}", f"op {i} ({op['op']}): {L.name} well {wi} = {float(v)} < min {float(mn)}", i)
+        if exc is None and op["op"] in ("aspirate", "remove", "dispense", "add") and "wells" in op and "vols" in op:
+            # an accepted call whose requested volumes, summed per real well, do not fit between the limits must have raised
+            try:
+                li = op["lab"]
+                spec = [sp for sp, r in zip(self.prog["labs"], run.lab_results) if r is None][li]
+                L = run.labs[li]
+                ws, vs = flatF(op["wells"]), flatF(op["vols"])
+                if len(vs) == 1:
+                    vs = vs * len(ws)
+                if len(vs) == len(ws) and all(isinstance(v, F) for v in vs):
+                    tot = {}
+                    helper = LedgerOracle(self.prog)
+                    for w, v in zip(ws, vs):
+                        wi = helper.well_index(spec, w)
+                        tot[wi] = tot.get(wi, F(0)) + v
+                    for wi, t in tot.items():
+                        if op["op"] in ("aspirate", "remove") and prev[li][wi] - t < q(L.min_volume) - EPS:
+                            self.fail(f"C02:underflow-not-raised:{op['op']}", f"op {i} ({op['op']}): {L.name} well {wi} held {float(prev[li][wi])}, "
+                                      f"{float(t)} was requested, min_volume {float(q(L.min_volume))}: no VolumeUnderflowError", i)
+                        if op["op"] in ("dispense", "add") and prev[li][wi] + t > q(L.max_volume) + EPS:
+                            self.fail(f"C02:overflow-not-raised:{op['op']}", f"op {i} ({op['op']}): {L.name} well {wi} held {float(prev[li][wi])}, "
+                                      f"{float(t)} was added, max_volume {float(q(L.max_volume))}: no VolumeOverflowError", i)
+            except (KeyError, ValueError, IndexError, TypeError):
+                pass
         if exc is not None and type(exc).__name__ in ("VolumeOverflowError", "VolumeUnderflowError"):
             # the message names labware and well; the offending well must be unchanged
             import re
